@@ -7,3 +7,5 @@ import BalmProofs.Props.C02
 #print axioms Balm.Props.C04.expandBfs_inv
 #print axioms Balm.Props.C04.expandDfs_inv
 #print axioms Balm.Props.C04.plain_history_inv
+#print axioms Balm.Impl.judgeStrict_sound
+#print axioms Balm.Impl.mem_minTrapsIn
